@@ -78,7 +78,8 @@ type MdnsManager struct {
 	providerSelection MdnsProviderSelection
 
 	mux,
-	muxAnnounced sync.Mutex
+	muxAnnounced,
+	muxConfig sync.Mutex // guards autoaccept
 }
 
 func shortenString(s string, maxLen int) string {
@@ -243,7 +244,7 @@ func (m *MdnsManager) AnnounceMdnsEntry() error {
 		"brand=" + m.deviceBrand,
 		"model=" + m.deviceModel,
 		"type=" + m.deviceType,
-		"register=" + fmt.Sprintf("%v", m.autoaccept),
+		"register=" + fmt.Sprintf("%v", m.isAutoAccept()),
 	}
 
 	// SHIP Requirements for Installation Process V1.0.0
@@ -299,8 +300,17 @@ func (m *MdnsManager) setIsServiceAnnounce(value bool) {
 	m.isAnnounced = value
 }
 
+func (m *MdnsManager) isAutoAccept() bool {
+	m.muxConfig.Lock()
+	defer m.muxConfig.Unlock()
+
+	return m.autoaccept
+}
+
 func (m *MdnsManager) SetAutoAccept(accept bool) {
+	m.muxConfig.Lock()
 	m.autoaccept = accept
+	m.muxConfig.Unlock()
 
 	// if announcement is off, don't enforce a new announcement
 	if !m.isServiceAnnounced() {
